@@ -126,6 +126,46 @@ func checkC08(c *run.Ctx) {
 			}
 		})
 	})
+	// Nesting depth: order-significant mappings (keys out of alphabetical order, more than 8 of them now and then)
+	// sit 1 to 200 (600) levels deep in an unknown field of the pipeline and of a step, under mappings and sequences
+	c.Phase("depth", func() {
+		maxDepth := c.N(200, 600)
+		c.Parallel("deep", maxDepth*2, func(i int, r *rand.Rand) {
+			depth, seqs := 1+i/2, i%2 == 1
+			leaf := func(tag string) *doc.Node {
+				m := doc.M(doc.P("zz_"+tag, doc.I(1)), doc.P("mm_"+tag, doc.S("v")), doc.P("aa_"+tag, doc.I(2)), doc.P("kk_"+tag, doc.L(doc.S("x"))))
+				if depth%5 == 0 {
+					for k := 9; k >= 0; k-- {
+						m.Map = append(m.Map, doc.P(fmt.Sprintf("n%d_%s", k, tag), doc.I(int64(k))))
+					}
+				}
+				return m
+			}
+			chain := func(tag string) *doc.Node {
+				n := leaf(tag)
+				for k := depth - 1; k >= 1; k-- {
+					if seqs && k%2 == 0 {
+						n = doc.L(doc.S("before"), n)
+					} else {
+						n = doc.M(doc.P(fmt.Sprintf("z%d", k), doc.I(int64(k))), doc.P(fmt.Sprintf("m%d", k), n), doc.P(fmt.Sprintf("a%d", k), doc.S("after")))
+					}
+				}
+				return n
+			}
+			d := doc.M(doc.P("deep", chain("top")), doc.P("steps", doc.L(doc.M(doc.P("command", doc.S("c")), doc.P("deep", chain("step"))))))
+			text, style := string(doc.ToJSON(d)), "json"
+			if depth <= 120 && i%3 == 0 {
+				if t, err := doc.ToYAML(d, doc.YAMLOpts{}); err == nil {
+					text, style = t, "yaml-block"
+				}
+			}
+			if !c08CheckText(c, run.CaseID("deep", i), text, style, d) {
+				return
+			}
+			c.Feature("deep", depth/10, seqs, style)
+			c.Max("max_depth_of_an_ordered_mapping", int64(depth))
+		})
+	})
 	// Phase 2: general grammar documents with order-significant positions honoured.
 	n2 := c.N(1500, 40000)
 	c.Phase("grammar-docs", func() {
